@@ -56,8 +56,9 @@ func (z *E12) MulBy014(c0, c1, c4 *E2) *E12 {
 	b.MulBy1(c4)
 	d.Add(c1, c4)
 
+	c0Copy := *c0 // c0 may point into z.C1, which is written next
 	z.C1.Add(&z.C1, &z.C0)
-	z.C1.MulBy01(c0, &d)
+	z.C1.MulBy01(&c0Copy, &d)
 	z.C1.Sub(&z.C1, &a)
 	z.C1.Sub(&z.C1, &b)
 	z.C0.MulByNonResidue(&b)
@@ -78,8 +79,9 @@ func (z *E12) MulBy01(c0, c1 *E2) *E12 {
 	b.MulByNonResidue(&z.C1)
 	d.SetOne().Add(c1, &d)
 
+	c0Copy := *c0 // c0 may point into z.C1, which is written next
 	z.C1.Add(&z.C1, &z.C0)
-	z.C1.MulBy01(c0, &d)
+	z.C1.MulBy01(&c0Copy, &d)
 	z.C1.Sub(&z.C1, &a)
 	z.C1.Sub(&z.C1, &b)
 	z.C0.MulByNonResidue(&b)
